@@ -14,7 +14,7 @@ def write_project(root, files):
             f.write(data)
 
 
-def run_queries(project, queries, workdir, mode='json', timeout=600):
+def run_queries(project, queries, workdir, mode='json', timeout=600, env_extra=None):
     """queries: list of (id, query string).  -> (dict id -> (outcome, payload str), graph lines or None)
     outcome in ok / err / panic / exit / timeout"""
     os.makedirs(workdir, exist_ok=True)
@@ -24,7 +24,7 @@ def run_queries(project, queries, workdir, mode='json', timeout=600):
             f.write('%s %s\n' % (qid, q.encode('utf-8').hex()))
     if os.path.exists(of):
         os.remove(of)
-    env = dict(ENV, HOME=workdir)
+    env = dict(ENV, HOME=workdir, **(env_extra or {}))
     start, results, graph = 0, {}, None
     ids = [qid for qid, _ in queries]
     guard = 0
